@@ -273,7 +273,7 @@ def override_stage(ctx, own, thorough):
     recorded trace is validated against TraceRequestObs; a request that reaches the backend with another request's
     body shows up as a reply carrying another request's answer / a request taken twice, and is reported under `own`."""
     n = "3000" if thorough else "500"
-    v, st, reqinfo, _ = run_traces(ctx, "override-pipelined", ["-random", n, "-nodes", "3", "-numconns", "1", "-clients", "4", "-workers", "8",
+    v, st, reqinfo, rawev = run_traces(ctx, "override-pipelined", ["-random", n, "-nodes", "3", "-numconns", "1", "-clients", "4", "-workers", "8",
                                                                 "-round", "250", "-delay", "4", "-override", "-okbias", "2", "-nodrops"])
     keys = []
     for b in v["bad"]:
@@ -285,5 +285,18 @@ def override_stage(ctx, own, thorough):
             ctx.violation(key, "with a consistency override configured and requests pipelined/retried: %s (request %s)" % (b["what"], info),
                           replay={"violation": b, "request": info})
             keys.append(key)
-    ctx.notes["override_pipelined"] = {"requests": len(reqinfo), "events": v["total"], "violations": len(keys)}
+    # every write of this workload carries a listed consistency: whichever attempt of it a backend receives - the first, a retry on
+    # the next host, the re-execution after a re-prepare - must carry the override (C12)
+    listed, seen = {6: "LOCAL_QUORUM", 7: "EACH_QUORUM"}, 0
+    for e in rawev:
+        if e.get("ev") == "BackendRecv" and e.get("op") in ("QUERY", "EXECUTE", "BATCH") and e.get("sel") is False:
+            seen += 1
+            if e.get("cl") in listed and own == "C12":
+                key = "c12:override-pipelined:write-reaches-a-backend-with-a-listed-consistency:attempt=%s" % ("first" if e.get("att") == 1 else "later")
+                ctx.violation(key, "with the override configured a %s (attempt %s of its request) reached the backend at %s" % (e["op"], e.get("att"), listed[e["cl"]]),
+                              replay={"event": e})
+                keys.append(key)
+    if not seen:
+        raise core.Inconclusive("override stage: no write was seen by a backend")
+    ctx.notes["override_pipelined"] = {"requests": len(reqinfo), "events": v["total"], "violations": len(keys), "writes_seen_by_backends": seen}
     return keys
